@@ -28,7 +28,9 @@ type World struct {
 	Thunks bool // some resolvers return func() (interface{}, error)
 	// AllThunks makes every resolver return a thunk (stress for the dethunking order)
 	AllThunks bool
-	fields    map[string]*gq.FieldDesc
+	// FailLeaves makes every resolver of a leaf-typed (scalar / enum) field fail: many errors per response
+	FailLeaves bool
+	fields     map[string]*gq.FieldDesc
 }
 
 func New(desc *gq.SchemaDesc, seed uint64) *World {
@@ -131,7 +133,14 @@ func (w *World) Resolve(p graphql.ResolveParams) (interface{}, error) {
 	mode := seed >> 40
 	var val interface{}
 	var rerr error
+	leaf := false
+	if named := te.NamedName(); named != "" {
+		td := w.Desc.Type(named)
+		leaf = td == nil || td.Kind == "ENUM" || td.Kind == "SCALAR"
+	}
 	switch {
+	case w.FailLeaves && leaf:
+		rerr = errors.New("fail " + pt + "." + p.Info.FieldName)
 	case w.Errors && mode%9 == 0:
 		rerr = errors.New("boom " + pt + "." + p.Info.FieldName)
 	case w.Errors && mode%9 == 1:
